@@ -61,6 +61,14 @@ def gen_case(rnd, idx, forced_ctx=None, forced_root=None, n=None):
     file_of = {i: "f%d.rs" % rnd.randrange(nfiles) if nfiles > 1 else "lib.rs" for i in range(n)}
     if nfiles > 1 and rnd.random() < 0.5:
         file_of = {i: rnd.choice(["", "models/", "a/b/"]) + f for i, f in file_of.items()}
+    if nfiles > 1 and idx % 3 == 1:
+        # module files whose names mean something to cargo, git or the tool itself: below the project path they are ordinary modules
+        special = ["pipeline/build.rs", "models/mod.rs", "bin/main.rs", "deploy/target.rs", "vcs/git.rs", "checks/tests.rs", "api/types.rs", "api/commands.rs",
+                   "api/events.rs", "api/index.rs", "gen/generated.rs", "x/lib.rs", "cache/typecache.rs", "node/node_modules.rs"]
+        remap = {}
+        for f in sorted(set(file_of.values())):
+            remap[f] = special[(idx // 3 + len(remap)) % len(special)]
+        file_of = {i: remap[f] for i, f in file_of.items()}
     # roots
     roots = []
     nroots = rnd.randint(1, 3)
